@@ -53,35 +53,35 @@ def decPairs {α : Type} (f : Sexp → Option α) (ps : List Sexp) : Option (Lis
     | .list [a, b] => do pure ((← name? a), (← f b))
     | _ => none)
 
-def decV (s : VSpec) : Nat → Sexp → Option DExpr
+def decViral (s : VSpec) : Nat → Sexp → Option DExpr
   | 0, _ => none
   | _+1, .list [.atom "ds", n] => (name? n).map .ds
   | k+1, .list [.atom "vmapm", d, body, out] => do
-      pure (.app1 (vMapm s (← decS (depth body + 1) body) (← decOut out)) (← decV s k d))
+      pure (.app1 (vMapm s (← decS (depth body + 1) body) (← decOut out)) (← decViral s k d))
   | k+1, .list [.atom "vzip", a, b, body, out] => do
-      pure (.app2 (vZip s (← decS (depth body + 1) body) (← decOut out)) (← decV s k a) (← decV s k b))
+      pure (.app2 (vZip s (← decS (depth body + 1) body) (← decOut out)) (← decViral s k a) (← decViral s k b))
   | k+1, .list [.atom "vaggr", sp, d] => do
-      pure (.app1 (vAggr s (← decSpec sp)) (← decV s k d))
-  | k+1, .list [.atom "vpart", d, ps] => do pure (.app1 (vPartition s (← decNames ps)) (← decV s k d))
-  | k+1, .list [.atom "filter", d, c] => do pure (.filter (← decV s k d) (← decS (depth c + 1) c))
+      pure (.app1 (vAggr s (← decSpec sp)) (← decViral s k d))
+  | k+1, .list [.atom "vpart", d, ps] => do pure (.app1 (vPartition s (← decNames ps)) (← decViral s k d))
+  | k+1, .list [.atom "filter", d, c] => do pure (.filter (← decViral s k d) (← decS (depth c + 1) c))
   | k+1, .list [.atom "calc", d, .list items] => do
       let its ← items.mapM (fun it => match it with
         | .list [n, e] => do pure ((← name? n), (← decS (depth e + 1) e))
         | _ => none)
-      pure (.calc (← decV s k d) its)
-  | k+1, .list [.atom "keep", d, ns] => do pure (.keep (← decV s k d) ((← decNames ns) ++ s.names))
-  | k+1, .list [.atom "drop", d, ns] => do pure (.drop (← decV s k d) (← decNames ns))
-  | k+1, .list [.atom "rename", d, .list ps] => do pure (.rename (← decV s k d) (← decPairs name? ps))
-  | k+1, .list [.atom "sub", d, .list ps] => do pure (.sub (← decV s k d) (← decPairs decValue ps))
-  | k+1, .list [.atom "union", a, b] => do pure (.union (← decV s k a) (← decV s k b))
-  | k+1, .list [.atom "intersect", a, b] => do pure (.intersect (← decV s k a) (← decV s k b))
-  | k+1, .list [.atom "setdiff", a, b] => do pure (.setdiff (← decV s k a) (← decV s k b))
-  | k+1, .list [.atom "symdiff", a, b] => do pure (.symdiff (← decV s k a) (← decV s k b))
+      pure (.calc (← decViral s k d) its)
+  | k+1, .list [.atom "keep", d, ns] => do pure (.keep (← decViral s k d) ((← decNames ns) ++ s.names))
+  | k+1, .list [.atom "drop", d, ns] => do pure (.drop (← decViral s k d) (← decNames ns))
+  | k+1, .list [.atom "rename", d, .list ps] => do pure (.rename (← decViral s k d) (← decPairs name? ps))
+  | k+1, .list [.atom "sub", d, .list ps] => do pure (.sub (← decViral s k d) (← decPairs decValue ps))
+  | k+1, .list [.atom "union", a, b] => do pure (.union (← decViral s k a) (← decViral s k b))
+  | k+1, .list [.atom "intersect", a, b] => do pure (.intersect (← decViral s k a) (← decViral s k b))
+  | k+1, .list [.atom "setdiff", a, b] => do pure (.setdiff (← decViral s k a) (← decViral s k b))
+  | k+1, .list [.atom "symdiff", a, b] => do pure (.symdiff (← decViral s k a) (← decViral s k b))
   | _+1, _ => none
 
 def decStmts (s : VSpec) (xs : List Sexp) : Option (List (String × DExpr)) :=
   xs.mapM (fun p => match p with
-    | .list [n, e] => do pure ((← name? n), (← decV s (depth e + 1) e))
+    | .list [n, e] => do pure ((← name? n), (← decViral s (depth e + 1) e))
     | _ => none)
 
 /-- statements in order; every result is bound in the environment for the following ones. -/
@@ -108,7 +108,7 @@ def encR (r : R Value) : Sexp :=
   | .ok v => .list [.atom "ok", encValue v]
   | .error e => encErr e
 
-def handleV (req : Sexp) : Sexp :=
+def handleViral (req : Sexp) : Sexp :=
   match req with
   | .list [.atom "pair", r, a, b] =>
       match decRule r, decValue a, decValue b with
@@ -149,9 +149,9 @@ def handleV (req : Sexp) : Sexp :=
       | _, _ => .list [.atom "bad-request"]
   | _ => .list [.atom "bad-request"]
 
-def handleLineV (line : String) : String :=
+def handleLineViral (line : String) : String :=
   match Sexp.parse line with
-  | some r => (handleV r).toString
+  | some r => (handleViral r).toString
   | none => "(bad-request)"
 
 end VtlModel.Sem
